@@ -920,7 +920,21 @@ func c15Extract(out string) int {
 		rparts = append(rparts, fmt.Sprintf("%q", r))
 	}
 	sb.WriteString(strings.Join(rparts, ", ") + "]\n\n")
-	sb.WriteString("def observerAccesses : List (String × String) :=\n  " + pairs(x.accesses) + "\n\n")
+	var accKeys [][2]string
+	for k := range x.accesses {
+		accKeys = append(accKeys, k)
+	}
+	sort.Slice(accKeys, func(i, j int) bool { return accKeys[i][0]+"\x00"+accKeys[i][1] < accKeys[j][0]+"\x00"+accKeys[j][1] })
+	var accParts []string
+	for _, k := range accKeys {
+		cat, detail := k[1], ""
+		if i := strings.Index(k[1], ":"); i >= 0 {
+			cat, detail = k[1][:i], k[1][i+1:]
+		}
+		accParts = append(accParts, fmt.Sprintf("(%q, %q, %q)", k[0], cat, detail))
+	}
+	sb.WriteString("/-- (function, category, detail) -/\n")
+	sb.WriteString("def observerAccesses : List (String × String × String) :=\n  [" + strings.Join(accParts, ",\n  ") + "]\n\n")
 	var ws [][3]string
 	for k := range x.ownWrites {
 		ws = append(ws, k)
